@@ -4,7 +4,7 @@
    where "=" means the implementation's observation equals the model's, and props are the ids of
    the properties whose Spec the implementation's observation falsifies on this input. *)
 From Coq Require Import String.
-Require Import Base Node Command Glob Selector Policy Chain.
+Require Import Base Node Command Glob Selector SelParse Policy PolicyIpld Chain.
 Local Open Scope N_scope.
 
 Definition nstr (n : node) : str := match n with Str s => s | Bytes s => s | _ => [] end.
@@ -253,6 +253,10 @@ Definition eng_policy (inp impl : node) : verdict :=
                violated := c11 (match impl with
                                 | List [List [Bool m1; Bool q1]; List [Bool m2; Bool q2]] => implb m1 m2 && implb q1 q2
                                 | _ => false end) |}
+          else if str_eqb op (lit "rt") then
+            (* p1 = p2: the implementation evaluated the constructed policy and its IPLD round trip *)
+            {| model_obs := m;
+               violated := if match impl with List [a; b] => node_eqb a b | _ => false end then [] else [lit "C14"] |}
           else if str_eqb op (lit "cat") then
             (* d1 = d2; p1 ++ p2 is sent as a third evaluation by the harness: impl = [v1; v2; v12] *)
             {| model_obs := List [verdicts p1 d1; verdicts p2 d1; verdicts (p1 ++ p2) d1];
@@ -264,6 +268,52 @@ Definition eng_policy (inp impl : node) : verdict :=
       end
   | _ => bad
   end.
+
+(* ---------------- engines: selparse, policyipld (C14) ---------------- *)
+Definition seg_desc (s : seg) : node :=
+  let d idt itr sl f i := List [Bool idt; Bool (sopt s); Bool itr; List sl; Str f; Int i] in
+  match sk s with
+  | KIdent => d true false [] [] 0%Z
+  | KIter => d false true [] [] 0%Z
+  | KField f => d false false [] f 0%Z
+  | KSlice a b => d false false [Int (match a with Some x => x | None => min_int64 end);
+                                 Int (match b with Some x => x | None => max_int64 end)] [] 0%Z
+  | KIndex i => d false false [] [] i
+  end.
+
+Definition c14 (ok : bool) : list str := if ok then [] else [lit "C14"].
+
+(* input: text; impl: ["err"] | ["ok"; segs; String(); reparse-gives-same-segments] *)
+Definition eng_selparse (inp impl : node) : verdict :=
+  match inp with
+  | Str s =>
+      let m := match sel_parse s with
+               | Ok p => List [Str (lit "ok"); List (map seg_desc (sel_segs p)); Str (sel_print p); Bool true]
+               | Err _ => List [Str (lit "err")]
+               | Panic => List [Str (lit "panic")]
+               end in
+      let spec_ok := match impl with
+                     | List [Str _; _; Str printed; Bool same] => str_eqb printed s && same
+                     | List [Str k] => str_eqb k (lit "err")
+                     | _ => false
+                     end in
+      {| model_obs := m; violated := c14 spec_ok |}
+  | _ => bad
+  end.
+
+(* input: node offered as a policy; impl: ["err"] | ["ok"; ToIPLD; FromDagJson-agrees] *)
+Definition eng_policyipld (inp impl : node) : verdict :=
+  let m := match pol_from_ipld inp with
+           | Ok p => List [Str (lit "ok"); pol_to_ipld p; Bool true]
+           | Err _ => List [Str (lit "err")]
+           | Panic => List [Str (lit "panic")]
+           end in
+  let spec_ok := match impl with
+                 | List [Str _; back; Bool agree] => node_eqb back inp && agree
+                 | List [Str k] => str_eqb k (lit "err")
+                 | _ => false
+                 end in
+  {| model_obs := m; violated := c14 spec_ok |}.
 
 (* ---------------- engine: chain (C01-C05) ---------------- *)
 Definition oz (n : node) : option Z := match n with Int z => Some z | _ => None end.
@@ -370,7 +420,8 @@ Definition engines : list (str * (node -> node -> verdict)) :=
   [ (lit "command", eng_command); (lit "glob", eng_glob);
     (lit "selector", eng_selector);
     (lit "policy", eng_policy);
-    (lit "chain", eng_chain) ].
+    (lit "chain", eng_chain);
+    (lit "selparse", eng_selparse); (lit "policyipld", eng_policyipld) ].
 
 Fixpoint find_engine (e : str) (l : list (str * (node -> node -> verdict))) : option (node -> node -> verdict) :=
   match l with
